@@ -827,6 +827,47 @@ pub fn run_c17(tier: Tier, rep: &mut Report) {
             }
         }
     }
+    // generated keys: export, re-import, same public key; records built with them verify
+    for round in 0..8 {
+        n += 1;
+        for (kind, k) in [("secp256k1", CombinedKey::generate_secp256k1()), ("ed25519", CombinedKey::generate_ed25519())] {
+            let exported = k.encode();
+            let mut buf = exported.clone();
+            let back = if kind == "secp256k1" { CombinedKey::secp256k1_from_bytes(&mut buf) } else { CombinedKey::ed25519_from_bytes(&mut buf) };
+            match back {
+                Ok(k2) => {
+                    if k2.public().encode() != k.public().encode() || k2.encode() != exported {
+                        bad(&format!("a generated {kind} key does not survive export and re-import"), format!("round {round}"), &[]);
+                    }
+                }
+                Err(_) => bad(&format!("the export of a generated {kind} key is refused by the import"), format!("round {round}"), &[]),
+            }
+            let want_pub: Vec<u8> = if kind == "secp256k1" {
+                let mut s32 = [0u8; 32];
+                if exported.len() == 32 {
+                    s32.copy_from_slice(&exported);
+                }
+                rc::secp_pub(Lib::LibSecp, &s32).map(|p| p.to_vec()).unwrap_or_default()
+            } else {
+                let mut s32 = [0u8; 32];
+                if exported.len() == 32 {
+                    s32.copy_from_slice(&exported);
+                }
+                rc::ed_pub(&s32).to_vec()
+            };
+            if k.public().encode() != want_pub {
+                bad(&format!("public key of a generated {kind} key differs from the independent derivation of its export"), String::new(), &[]);
+            }
+            match real::guard(|| Enr::<CombinedKey>::builder().tcp4(7).build(&k)) {
+                Ok(Ok(e)) => {
+                    if !e.verify() {
+                        bad(&format!("a record built with a generated {kind} key does not verify"), String::new(), &[]);
+                    }
+                }
+                _ => bad(&format!("building a record with a generated {kind} key fails"), String::new(), &[]),
+            }
+        }
+    }
     rep.stats.transitions += n;
     rep.stats.states += n;
     rep.viols.extend(panics);
